@@ -113,7 +113,12 @@ def bfs(parents):
     transitions = 0
     viol = []
     edges = set()
+    limit = 6 ** n   # the documented machine has at most 6^n (state vector) x 1 (derived histogram) states
     while frontier:
+        if len(seen) > limit:
+            viol.append(Violation("lifecycle", "state-space-exceeds-machine", f"more than {limit} distinct (states, histogram) pairs reachable, e.g. {list(seen)[-1]}",
+                                  dict(parents=parents), seen[list(seen)[-1]], family="F0"))
+            break
         k = frontier.popleft()
         hist = seen[k]
         for i in range(n):
